@@ -8,15 +8,28 @@ for d in sorted(glob.glob(os.path.join(ROOT, "seeded", "*"))):
     if not os.path.exists(mp):
         continue
     m = json.load(open(mp))
-    r = json.load(open(rp))["latest"] if os.path.exists(rp) else {}
+    full = json.load(open(rp)) if os.path.exists(rp) else {}
+    r = full.get("latest", {})
+    hist = full.get("history", [])
+    demo_ok = any(h.get("demo_ok") for h in hist)
+    h0 = hist[0] if hist else {}
+    own = h0.get("checks", {}).get(m["property"], {})
+    k0 = (own.get("first_replay") or {})
+    first_sight = "yes" if own.get("rc") == 1 and k0.get("kind") != "no-failing-input-found" else ("pins only" if own.get("rc") == 1 else "no")
+    sp = os.path.join(d, "suite.txt")
+    suite = "?"
+    if os.path.exists(sp):
+        t = open(sp).read()
+        mm = re.search(r"stable_pass=(\d+) passed_now=(\d+) missing=(\d+)", t)
+        suite = (f"{mm.group(2)}/{mm.group(1)}" if mm else "running")
     caught = r.get("caught_by", [])
     first = ""
     for c in caught[:1]:
         fr = r["checks"][c].get("first_replay", {})
         first = (fr.get("key") or fr.get("kind") or "")[:60]
-    rows.append(f"| `{os.path.basename(d)}` | {m['property']} | {m.get('summary','')[:150]} | {m.get('needs_to_manifest','')[:130]} | "
-                f"{'yes' if r.get('demo_ok') else ('n/a' if 'demo_ok' not in r else 'NO')} | {', '.join(caught) if caught else '**missed**'} | {first} |")
-table = ("| seeded change | property | what it does | needs, to manifest | demo confirmed | caught by (quick tier) | first replay key |\n|---|---|---|---|---|---|---|\n" + "\n".join(rows)) if rows else "(no seeded change kept yet)"
+    rows.append(f"| `{os.path.basename(d)}` | {m['property']} | {m.get('summary','')[:150].replace('|', '∣')} | {m.get('needs_to_manifest','')[:130].replace('|', '∣')} | "
+                f"{'yes' if demo_ok else 'NO'} | {suite} | {first_sight} | {', '.join(caught) if caught else '**missed**'} | {first} |")
+table = ("| seeded change | property | what it does | needs, to manifest | demo confirmed | pinned suite with the change | caught when first evaluated | caught now by (quick tier) | first replay key |\n|---|---|---|---|---|---|---|---|---|\n" + "\n".join(rows)) if rows else "(no seeded change kept yet)"
 p = os.path.join(ROOT, "DESIGN.md")
 s = open(p).read()
 begin, end = "<!-- SEEDED_TABLE_BEGIN -->", "<!-- SEEDED_TABLE_END -->"
